@@ -52,6 +52,7 @@ type Stats struct {
 	Unreproduced []FoundViolation `json:"unreproduced,omitempty"`
 	Notes        []string       `json:"notes,omitempty"`
 	BudgetDone   map[string]string `json:"budget_done,omitempty"`
+	Extra        map[string]any `json:"extra,omitempty"`
 }
 
 func newStats() *Stats {
